@@ -18,12 +18,19 @@ def int_delays(rng):
     tab = {op: rng.choice([0, 1, 1, 2, 3, 5]) for op in ops}
     # width-dependent: the function receives the bitwidth of the gate's first argument
     funcs = {op: (lambda width, d=d: d + (width % 3 if d else 0)) for op, d in tab.items()}
-    funcs['r'] = lambda width: -1
-    funcs['@'] = lambda width: -1
+    # any negative delay marks the end of a path (documented), not only -1
+    neg = rng.choice([-1, -1, -5, -0.5])
+    funcs['r'] = lambda width, neg=neg: neg
+    funcs['@'] = lambda width, neg=neg: neg
+    # the delay of a read port is a function of the memory (data width, number of read ports), not of the address width
     md = rng.choice([0, 2, 4])
-    funcs['m'] = lambda mem, md=md: md
+    funcs['m'] = lambda mem, md=md: mem_delay(md, mem)
     tab['m'] = md
     return funcs, tab
+
+
+def mem_delay(md, mem):
+    return md + (mem.bitwidth % 4 + len(mem.readport_nets) if md else 0)
 
 
 def longest_paths(block, tab):
@@ -35,7 +42,7 @@ def longest_paths(block, tab):
 
     def delay(n):
         if n.op == 'm':
-            return tab['m']
+            return mem_delay(tab['m'], n.op_param[1])
         return tab[n.op] + (len(n.args[0]) % 3 if tab[n.op] else 0)
 
     def walk(w, acc):
@@ -126,7 +133,8 @@ def check_design(ctx, d, rng, label):
         with contextlib.redirect_stdout(io.StringIO()):
             cps = ta.critical_path(print_cp=False, cp_limit=200)
         for first, path in cps:
-            total = sum(tab[n.op] + (len(n.args[0]) % 3 if (tab[n.op] and n.op != 'm') else 0) for n in path)
+            total = sum((mem_delay(tab['m'], n.op_param[1]) if n.op == 'm' else tab[n.op] + (len(n.args[0]) % 3 if tab[n.op] else 0))
+                        for n in path)
             chain_ok = all(any(path[k].dests[0] is a for a in path[k + 1].args) for k in range(len(path) - 1))
             start_ok = (not path) or any(first is a for a in path[0].args)
             if total != ml or not chain_ok or not start_ok or not isinstance(first, (Input, Const, Register)):
@@ -148,7 +156,8 @@ def check_design(ctx, d, rng, label):
         # the Lean model of the timing map (tie)
         order = [ser.net_index(n) for n in blk]
         m = ctx.driver.ask({'cmd': 'timing', 'block': ser.data, 'order': order,
-                            'delays': {k: v for k, v in tab.items()}, 'wmod': 3})
+                            'delays': {k: v for k, v in tab.items()}, 'wmod': 3,
+                            'mdelays': {str(n.op_param[1].id): mem_delay(tab['m'], n.op_param[1]) for n in blk.logic_subset('m')}})
         if m.get('ok'):
             name2id = {w.name: i for i, w in enumerate(ser.wires)}
             ctx.tie_n = getattr(ctx, 'tie_n', 0) + 1
@@ -172,6 +181,28 @@ def check_design(ctx, d, rng, label):
                           dict(replay, wire=w.name))
             ok = False
             break
+    # paths() with src/dst left out (all Inputs / all Outputs of the block given), called while an unrelated block is
+    # the working block
+    from vlib import passlib
+    ins_all = sorted(blk.wirevector_subset(Input), key=lambda w: w.name)
+    outs_all = sorted(blk.wirevector_subset(Output), key=lambda w: w.name)
+    try:
+        dflt_paths = passlib.run_in(blk, lambda: analysis.paths(block=blk), foreign=True)
+        keys = sorted(w.name for w in dflt_paths)
+        if keys != [w.name for w in ins_all] or any(sorted(w.name for w in dflt_paths[i_]) != [w.name for w in outs_all] for i_ in dflt_paths):
+            ctx.violation('paths-defaults', 'paths(block=b) with src/dst omitted is keyed by %r -> %r, the block has inputs %r and outputs %r' % (
+                keys[:4], sorted(w.name for w in list(dflt_paths.values())[0])[:4] if dflt_paths else [], [w.name for w in ins_all][:4],
+                [w.name for w in outs_all][:4]), replay)
+            ok = False
+        elif ins_all and outs_all:
+            s0, t0 = ins_all[0], outs_all[0]
+            want0 = all_paths(blk, s0, t0)
+            if want0 is not None and sorted(path_key(p) for p in dflt_paths[s0][t0]) != sorted(path_key(p) for p in want0):
+                ctx.violation('paths-defaults', 'paths(block=b)[%s][%s] differs from the simple net paths' % (s0.name, t0.name), replay)
+                ok = False
+    except Exception as e:  # noqa
+        ctx.violation('paths-defaults-raises', 'paths(block=b) raised %s: %s' % (type(e).__name__, str(e)[:100]), replay)
+        ok = False
     # paths(src, dst) = exactly the simple net paths
     srcs = sorted(blk.wirevector_subset((Input, Register)), key=lambda w: w.name)
     dsts = sorted(blk.wirevector_subset((Output, Register)), key=lambda w: w.name)
